@@ -10,6 +10,8 @@ def register(prop, J):
          jobs=[
              J("conf-v2", "v2", "codecprops", "^TestC03", checks=(8000, 400000), shards=(4, 16), prepare="prepare_codec",
                extra_pkgs=["dyn", "gendrv"], timeout=(900, 3000)),
+             J("conf-v1", "v1", "codecprops", "^TestC03", checks=(6000, 200000), shards=(4, 16), prepare="prepare_codec",
+               extra_pkgs=["dyn", "gendrv"], timeout=(900, 3000)),
          ],
          level_text="differential testing in both directions against a reference encoder/decoder pair written from the protocol rules "
                     "(strict JSON on encoding/json's tokenizer with duplicate-key / trailing-data / UTF-8 checks, hand-written ROR2 "
